@@ -1057,11 +1057,9 @@ func (w *Walker) formula(e ast.Expr, st *pstate, c *ctl) Formula {
 	case "false":
 		return FConst(false)
 	}
-	// the canonical value may itself be a negation or comparison produced by substitution
-	if strings.HasPrefix(s, "!") && !strings.HasPrefix(s, "!=") {
-		return FLit{Lit{L: strings.TrimPrefix(s, "!"), R: "true", Mask: mLT | mGT, RConst: constant.MakeBool(true)}}
-	}
-	return FLit{Lit{L: s, R: "true", Mask: mEQ, RConst: constant.MakeBool(true)}}
+	// the canonical value may itself be a negation or comparison produced by substitution: a local that names a
+	// condition (`subscribed := sctx.req != nil`) stands for that condition, as written when it was computed
+	return canonFormula(s)
 }
 
 func (w *Walker) cmpLit(l ast.Expr, op string, r ast.Expr, st *pstate, c *ctl) Formula {
@@ -1838,10 +1836,10 @@ func onStack(stack []*FuncInfo, f *FuncInfo) bool {
 // constructedError recognises the canonical value of an error built on the spot by a constructor that never
 // returns nil: the typed-error constructors of onos-lib-go, fmt.Errorf, errors.New, status.Error(f).
 func constructedError(s string) bool {
-	if !strings.HasPrefix(s, "err(") {
-		return false
+	in := s
+	if strings.HasPrefix(s, "err(") {
+		in = s[4:]
 	}
-	in := s[4:]
 	// errors.Status(e).Err() of a constructed typed error is the gRPC form of that error
 	if strings.HasPrefix(in, "{errors.Status(") && strings.HasSuffix(in, "}status.Status.Err())") {
 		return constructedError(in[len("{errors.Status(") : len(in)-len(")}status.Status.Err())")])
@@ -1852,6 +1850,83 @@ func constructedError(s string) bool {
 		}
 	}
 	return false
+}
+
+// canonFormula reads a canonical boolean value back as a formula: "!x", "(a && b)", "(a || b)", "(a op b)" with a
+// comparison operator; anything else is the atom `s == true`.
+func canonFormula(s string) Formula {
+	atom := func(s string) Formula {
+		return FLit{Lit{L: s, R: "true", Mask: mEQ, RConst: constant.MakeBool(true)}}
+	}
+	if strings.HasPrefix(s, "!") && !strings.HasPrefix(s, "!=") {
+		return FNot{canonFormula(strings.TrimPrefix(s, "!"))}
+	}
+	if len(s) < 2 || s[0] != '(' || matchingClose(s, 0) != len(s)-1 {
+		return atom(s)
+	}
+	in := s[1 : len(s)-1]
+	// split at the top-level operator (canon renders a binary expression as "(X op Y)")
+	depth := 0
+	for _, ops := range [][]string{{" || "}, {" && "}, {" == ", " != ", " <= ", " >= ", " < ", " > "}} {
+		depth = 0
+		for i := 0; i < len(in); i++ {
+			switch in[i] {
+			case '(', '[', '{':
+				depth++
+			case ')', ']', '}':
+				depth--
+			case '"':
+				// skip a string literal
+				for i++; i < len(in) && in[i] != '"'; i++ {
+					if in[i] == '\\' {
+						i++
+					}
+				}
+			}
+			if depth != 0 {
+				continue
+			}
+			for _, op := range ops {
+				if strings.HasPrefix(in[i:], op) {
+					l, r := in[:i], in[i+len(op):]
+					switch op {
+					case " || ":
+						return FOr([]Formula{canonFormula(l), canonFormula(r)})
+					case " && ":
+						return FAnd([]Formula{canonFormula(l), canonFormula(r)})
+					}
+					lit := Lit{L: l, R: r, Mask: opMask(strings.TrimSpace(op))}
+					if r == "nil" {
+						lit.RNil = true
+					}
+					if l == "nil" {
+						lit = Lit{L: r, R: "nil", RNil: true, Mask: flipMask(lit.Mask)}
+					}
+					if lit.R == `""` {
+						lit.RConst = constant.MakeString("")
+					}
+					return FLit{lit}
+				}
+			}
+		}
+	}
+	return atom(s)
+}
+
+func matchingClose(s string, open int) int {
+	depth := 0
+	for i := open; i < len(s); i++ {
+		switch s[i] {
+		case '(':
+			depth++
+		case ')':
+			depth--
+			if depth == 0 {
+				return i
+			}
+		}
+	}
+	return -1
 }
 
 func isPureBuiltin(name string) bool {
